@@ -57,6 +57,9 @@ Proof.
   - destruct (seq_data c); [|exact I]. destruct (aget kmeta (ofs c)); [|exact I]. apply rf_new_seq.
   - destruct (ocls c); try exact I. apply rf_read_all. intros cs. destruct (all_some len_of cs); [|exact I]. cbn [ret_fresh].
     intros m y. exists y. split; auto. left. reflexivity.
+  - destruct (ocls c); try exact I. apply rf_read_all. intros scs. destruct (mapM _ scs); [|exact I].
+    apply rf_read_all. intros mcs. destruct (mapM _ mcs); [|exact I]. apply rf_read_all. intros fcs.
+    destruct (forallb _ fcs); [|exact I]. cbn [ret_fresh]. intros y. exists y. split; auto. left. reflexivity.
 Qed.
 Theorem pure_returns_new i f j q s s' r : f <> PGet -> ostep (OPure i f j q) s = inl (s', r) ->
   exists a, r = HRef a /\ length (fst s) <= a /\ nth_error (fst s) a = None.
